@@ -66,6 +66,10 @@ def run(ctx):
         rule_handout(ctx, M, units)
         rule_parent_kept(ctx, M)
         if std:
+            from . import c16
+            with ctx.renamed({"C16.*": "C01.ROUTE"}):
+                c16.rule_ownwaker(ctx, M)
+        if std:
             rule_fwd(ctx, M)
             prims.check_bits(ctx, M, "C01.BITS")
         else:
@@ -365,6 +369,9 @@ def live_premises(ctx, M, units, rule_id, with_globals=True):
                 if std:
                     rule_fwd(ctx, M)
                     prims.check_bits(ctx, M, "C01.BITS")
+                    from . import c16
+                    with ctx.renamed({"C16.*": rule_id}):
+                        c16.rule_ownwaker(ctx, M)      # sub-waker i carries id i
                 else:
                     prims.check_nostd(ctx, M, "C01.NOSTD")
                 prims.check_set_waker(ctx, M, "C01.SETWAKER")
